@@ -178,14 +178,37 @@ func CallMethod(obj interface{}, methodName string, args ...interface{}) (interf
 			methodName, methodType.NumIn(), len(args))
 	}
 
-	// Prepare arguments
+	// Prepare arguments. reflect.Call also panics on a null argument (a zero
+	// reflect.Value) and on an argument whose type the parameter cannot hold,
+	// so both are settled here: null becomes the parameter's zero value where
+	// the parameter is a plain value (any, object, array), and anything else
+	// that does not fit is an error.
 	methodArgs := make([]reflect.Value, len(args))
 	for i, arg := range args {
-		methodArgs[i] = reflect.ValueOf(arg)
+		paramType := methodParamType(methodType, i)
+		if arg == nil {
+			// Only where the method expects a plain value: handing a nil
+			// context or pointer to a provider trades one crash for another.
+			isAny := paramType.Kind() == reflect.Interface && paramType.NumMethod() == 0
+			if isAny || paramType.Kind() == reflect.Map || paramType.Kind() == reflect.Slice {
+				methodArgs[i] = reflect.Zero(paramType)
+				continue
+			}
+			return nil, fmt.Errorf("method %s: argument %d must be %s, got null", methodName, i+1, paramType)
+		}
+		argValue := reflect.ValueOf(arg)
+		if !argValue.Type().AssignableTo(paramType) {
+			return nil, fmt.Errorf("method %s: argument %d must be %s, got %s", methodName, i+1, paramType, argValue.Type())
+		}
+		methodArgs[i] = argValue
 	}
 
-	// Call the method
-	results := method.Call(methodArgs)
+	// Call the method. A panic inside a provider method is reported as an error
+	// for the same reason the checks above exist.
+	results, callErr := callRecovered(method, methodArgs, methodName)
+	if callErr != nil {
+		return nil, callErr
+	}
 
 	// Handle return values
 	if len(results) == 0 {
@@ -207,6 +230,26 @@ func CallMethod(obj interface{}, methodName string, args ...interface{}) (interf
 
 	// Return the first result
 	return results[0].Interface(), nil
+}
+
+// methodParamType returns the type the i-th call argument must fit, looking
+// through the trailing slice of a variadic method.
+func methodParamType(methodType reflect.Type, i int) reflect.Type {
+	last := methodType.NumIn() - 1
+	if methodType.IsVariadic() && i >= last {
+		return methodType.In(last).Elem()
+	}
+	return methodType.In(i)
+}
+
+// callRecovered calls method and turns a panic raised by it into an error.
+func callRecovered(method reflect.Value, args []reflect.Value, methodName string) (results []reflect.Value, err error) {
+	defer func() {
+		if r := recover(); r != nil {
+			results, err = nil, fmt.Errorf("method %s failed: %v", methodName, r)
+		}
+	}()
+	return method.Call(args), nil
 }
 
 // canonicalMethodName maps a called name to its whitelisted Go spelling.
